@@ -46,8 +46,8 @@ RULE = (
     'moved to the last line) and expects GraphParseError, and, where some '
     'output is declared at two places, flips one ? to get an optionality '
     'conflict (chain and pair renderings must both reject); 1 case in 30 (by '
-    'hash of the AST) also goes through WorkflowConfig.  Non-trivial = the AST has a chain of >= 3 '
-    'nodes or a rendering used a continuation line or an optional mark is '
+    'hash of the AST) also goes through WorkflowConfig.  Non-trivial = the '
+    'AST has a chain of >= 3 nodes or a rendering used a continuation line or an optional mark is '
     'present, and >= 3 distinct rendered texts were compared.  Distinct = by '
     '(AST, rendered texts).')
 ASSUMPTIONS = [
@@ -66,8 +66,16 @@ ASSUMPTIONS = [
     'Mid-chain plain names declare :succeeded required, end-of-chain plain '
     'names declare nothing, lone/first nodes declare :succeeded (GraphParser '
     'class docstring).',
-    'Malformed kinds are only those for which graph_parser.py has an explicit '
-    'GraphParseError or tests/unit/test_graph_parser.py expects one.',
+    'Malformed kinds are those for which graph_parser.py has an explicit '
+    'GraphParseError or tests/unit/test_graph_parser.py expects one, plus two '
+    'that no documented node syntax admits (a bare "!" on the right; a '
+    'parameter item that does not start with a name, e.g. foo<+>): for these '
+    'any clean rejection (GraphParseError or ParamExpandError) is accepted, '
+    'another exception type is not.',
+    'Thorough tier: an Atheris campaign (shards 0-3) adds byte-level inputs; '
+    'only wrong exception types found there are reported, after re-checking '
+    'the saved text through the plain replay path; its fixed-point statistic '
+    'is informational.',
 ]
 MANIFEST = {
     'engine': 'P',
